@@ -58,11 +58,12 @@ def mods_s(draw, base, stochastic_bias=False):
     k = draw(st.integers(0, 3))
     if stochastic_bias or k == 0:
         mods['obs'] = draw(st.sampled_from(OBS if not stochastic_bias else ['stochastic_raytracing', 'stochastic_raytracing', 'raytracing', 'partially_occluded']))
-    if draw(st.integers(0, 4)) == 0:
+    if draw(st.integers(0, 3)) == 0:
         # the generic observation function with a nested visibility-function entry
-        vis = {'name': draw(st.sampled_from(['fully_transparent', 'partially_occluded', 'raytracing', 'stochastic_raytracing']))}
-        if vis['name'] == 'raytracing' and draw(st.booleans()):
-            extra = {'absolute_counts': draw(st.booleans()), 'threshold': draw(st.sampled_from([1, 2, 0.5, 1.0]))}
+        vis = {'name': draw(st.sampled_from(['fully_transparent', 'partially_occluded', 'raytracing', 'raytracing', 'raytracing', 'stochastic_raytracing']))}
+        if vis['name'] == 'raytracing' and draw(st.integers(0, 3)) > 0:
+            absolute = draw(st.integers(0, 2)) == 0
+            extra = {'absolute_counts': absolute, 'threshold': draw(st.sampled_from([1, 2, 3] if absolute else [0.25, 0.5, 0.75, 1.0]))}
             if draw(st.booleans()):
                 extra = dict(reversed(list(extra.items())))       # a mapping lists its keys in any order
             vis.update(extra)
